@@ -409,12 +409,24 @@ func realMain(id string, pc propCfg, workDir string) int {
 		}
 		v.Repo = state
 		path := filepath.Join(verifDir, "replays", fmt.Sprintf("%s-%d.json", id, v.RunSeed))
+		if v.Race && v.SeedOnly {
+			// race reports end the worker process, so they are minimised here,
+			// one fresh process per candidate tape
+			v = shrinkRace(bin, id, v, workDir)
+		}
 		js, _ := json.MarshalIndent(v, "", " ")
 		os.WriteFile(path, js, 0o644)
 		out, match := replayOnce(bin, id, path, workDir)
 		if !match && len(v.Original) > 0 {
 			// the minimised tape did not reproduce in a fresh process: fall back to the original
 			v.Tape, v.Original = v.Original, nil
+			js, _ = json.MarshalIndent(v, "", " ")
+			os.WriteFile(path, js, 0o644)
+			out, match = replayOnce(bin, id, path, workDir)
+		}
+		if !match && v.Race && !v.SeedOnly {
+			// neither tape reproduces in halting mode: the seed-only form did
+			v.SeedOnly, v.Tape, v.Original = true, nil, nil
 			js, _ = json.MarshalIndent(v, "", " ")
 			os.WriteFile(path, js, 0o644)
 			out, match = replayOnce(bin, id, path, workDir)
@@ -580,6 +592,152 @@ func replayOnce(bin, id, path, workDir string) (string, bool) {
 		return s, false
 	}
 	return s, strings.Contains(s, "REPLAY-MATCH")
+}
+
+// tapeData mirrors zsim.TapeData.
+type tapeData struct {
+	Gen   []uint32 `json:"gen"`
+	Sched []uint32 `json:"sched"`
+	Fault []uint32 `json:"fault"`
+}
+
+func (t tapeData) size() int { return len(t.Gen) + len(t.Sched) + len(t.Fault) }
+
+// raceAttempt runs one tape (or, with seedOnly, the tape the run seed
+// generates) in a fresh worker process and returns the normalised race
+// signature it produced ("" = none), the report, and the tape it consumed.
+func raceAttempt(bin, id string, v replayFile, cand *tapeData, workDir string) (string, string, tapeData, string) {
+	rf := v
+	rf.Original = nil
+	if cand != nil {
+		rf.SeedOnly = false
+		rf.Tape, _ = json.Marshal(cand)
+	}
+	stamp := time.Now().UnixNano()
+	path := filepath.Join(workDir, fmt.Sprintf("racecand-%d.json", stamp))
+	tapeOut := filepath.Join(workDir, fmt.Sprintf("racecand-%d.tape", stamp))
+	raceLog := filepath.Join(workDir, fmt.Sprintf("racecand-%d.log", stamp))
+	js, _ := json.Marshal(rf)
+	os.WriteFile(path, js, 0o644)
+	defer os.Remove(path)
+	defer os.Remove(tapeOut)
+	cmd := exec.Command(bin, "-test.run", "TestWorker", "-test.timeout", "60s")
+	cmd.Env = append(os.Environ(), "ZSIM_PROP="+id, "ZSIM_REPLAY="+path, "ZSIM_TAPEOUT="+tapeOut, "GOMAXPROCS=1", "ZSIM_TMP="+scratchDir(workDir),
+		"ZSIM_KNOWN_FILE="+filepath.Join(verifDir, "known_findings.json"), "GORACE=log_path="+raceLog+" halt_on_error=0 exitcode=0")
+	var out bytes.Buffer
+	cmd.Stdout, cmd.Stderr = &out, &out
+	cmd.Run()
+	rep := readRaceLog(raceLog, cmd.Process.Pid)
+	os.Remove(fmt.Sprintf("%s.%d", raceLog, cmd.Process.Pid))
+	var used tapeData
+	if b, err := os.ReadFile(tapeOut); err == nil {
+		json.Unmarshal(b, &used)
+	}
+	sig := ""
+	if strings.Contains(rep, "DATA RACE") {
+		sig = "data race: " + raceSig(rep)
+	}
+	return sig, rep, used, out.String()
+}
+
+// shrinkRace minimises a race violation by delta debugging over its choice
+// tape: truncate the streams, delete blocks, zero and halve entries; a
+// candidate is kept only if a fresh process reports the same normalised race.
+func shrinkRace(bin, id string, v replayFile, workDir string) replayFile {
+	sig0, rep0, full, out0 := raceAttempt(bin, id, v, nil, workDir)
+	if sig0 != v.Signature || full.size() == 0 {
+		return v // not reproducible without halting: keep the seed-only form
+	}
+	best := full
+	attempts := 0
+	deadline := time.Now().Add(45 * time.Second)
+	lastRep, lastOut := rep0, out0
+	try := func(cand tapeData) bool {
+		if attempts >= 150 || time.Now().After(deadline) {
+			return false
+		}
+		attempts++
+		sig, rep, used, o := raceAttempt(bin, id, v, &cand, workDir)
+		if sig == v.Signature && used.size() <= cand.size()+8 {
+			best, lastRep, lastOut = used, rep, o
+			return true
+		}
+		return false
+	}
+	clone := func(d tapeData) tapeData {
+		return tapeData{Gen: append([]uint32(nil), d.Gen...), Sched: append([]uint32(nil), d.Sched...), Fault: append([]uint32(nil), d.Fault...)}
+	}
+	streams := func(d *tapeData) []*[]uint32 { return []*[]uint32{&d.Gen, &d.Fault, &d.Sched} }
+	for pass := 0; pass < 4; pass++ {
+		progress := false
+		for si := 0; si < 3; si++ {
+			for {
+				cur := *streams(&best)[si]
+				if len(cur) == 0 {
+					break
+				}
+				ok := false
+				for _, keep := range []int{0, len(cur) / 2, len(cur) * 3 / 4, len(cur) - 1} {
+					if keep >= len(cur) {
+						continue
+					}
+					cand := clone(best)
+					*streams(&cand)[si] = (*streams(&cand)[si])[:keep]
+					if try(cand) {
+						ok, progress = true, true
+						break
+					}
+				}
+				if !ok {
+					break
+				}
+			}
+			for _, bs := range []int{16, 4, 1} {
+				for i := 0; ; {
+					cur := *streams(&best)[si]
+					if i+bs > len(cur) {
+						break
+					}
+					cand := clone(best)
+					s := streams(&cand)[si]
+					*s = append((*s)[:i], (*s)[i+bs:]...)
+					if try(cand) {
+						progress = true
+					} else {
+						i += bs
+					}
+				}
+			}
+			for i := 0; ; i++ {
+				cur := *streams(&best)[si]
+				if i >= len(cur) {
+					break
+				}
+				if cur[i] == 0 {
+					continue
+				}
+				cand := clone(best)
+				(*streams(&cand)[si])[i] = 0
+				if try(cand) {
+					progress = true
+				}
+			}
+		}
+		if !progress || attempts >= 150 || time.Now().After(deadline) {
+			break
+		}
+	}
+	v.SeedOnly = false
+	v.Original, _ = json.Marshal(full)
+	v.Tape, _ = json.Marshal(best)
+	v.TapeLen = [3]int{full.size(), best.size(), attempts}
+	v.Detail = lastRep
+	for _, l := range strings.Split(lastOut, "\n") {
+		if strings.HasPrefix(l, "CASE ") {
+			v.Config = append(v.Config, strings.TrimPrefix(l, "CASE "))
+		}
+	}
+	return v
 }
 
 func readRaceLog(prefix string, pid int) string {
